@@ -85,6 +85,9 @@ func emitNodeAssemblerMethodAssignNode_listoid(w io.Writer, adjCfg *AdjunctCfg, 
 			if v.Kind() != datamodel.Kind_List {
 				return datamodel.ErrWrongKind{TypeName: "{{ .PkgName }}.{{ .Type.Name }}{{ if .IsRepr }}.Repr{{end}}", MethodName: "AssignNode", AppropriateKind: datamodel.KindSet_JustList, ActualKind: v.Kind()}
 			}
+			if _, err := na.BeginList(v.Length()); err != nil {
+				return err
+			}
 			itr := v.ListIterator()
 			for !itr.Done() {
 				_, v, err := itr.Next()
